@@ -1,5 +1,7 @@
 SPECIFICATION TSpec
 CONSTANTS
+  TolNum = 0
+  TolDen = 1
   Scenes = {}
   MaxIter = 12
   MaxSteps = 400
